@@ -6,10 +6,27 @@
    wrappers.  "Going wrong" = the run ends in OErr (EInternal _) (an
    ErrInternal-wrapped error) or OErr (EHostCrash _) (a Go panic).
 
-   STATUS.  Proved for the Stage-1 fragment [s1_program] (no maps, no user
-   functions / handlers, `any` only as the type of a variable or of an
-   argument wrapper, never inside an array): C02_soundness_partial,
-   C02_preservation_partial.  The full statement [soundness_full] is REFUTED
+   STATUS.  Two fragments of the language are proved, both for every program,
+   every fuel and every well-typed start state:
+   - [s1_program] (strict): everything of [s2_program] with `any` never inside
+     a composite type ([]any, {}any, [][]any ... do not occur; `any` variables,
+     any-wrapped arguments and type assertions do).  C02_soundness_partial: NO
+     run ends in an internal error or a host crash.
+   - [s2_program]: literals, variables, unary/binary operators, arrays and maps
+     of every value type (literals, index, slice, dot, concatenation,
+     repetition, ==), any-wrapping and type assertion, declarations, assignment
+     to variables / array elements / map entries (index and dot targets),
+     calls of the modelled built-ins (print sprint read cls sleep len has del
+     typeof str2num str2bool exit panic join startswith endswith min max abs
+     sqrt and the simple graphics calls) and of the program's own functions
+     (fixed and variadic parameters, return with and without value, recursion,
+     reads and assignments of globals), if / else, while, for over step
+     ranges, arrays, strings and maps, break.  C02_soundness_modulo_overflow_partial:
+     no run ends in an internal error, and the only host crash is the stack
+     overflow of String/Equals/deepCopy on a value that contains itself.
+   Event handlers (C02_handlers_partial, C02_handlers_modulo_overflow_partial): an event
+   delivered in the state a normally ended run (or an earlier event) leaves is handled
+   without going wrong.  The test built-in is inside both fragments; outside: the un-modelled built-ins.  The full statement [soundness_full] is REFUTED
    on the model (and on the implementation): C02_soundness_full_refuted. *)
 From Coq Require Import ZArith NArith List String Bool.
 From EvyV Require Import Base Num Ast Omap Sem Static SemSound.
@@ -19,66 +36,96 @@ Open Scope Z_scope.
 (* ---------- the full statements (NOT proved; the first one is false) ---------- *)
 Definition soundness_full : Prop :=
   forall P, wt_program P = true ->
-  forall fuel s0, state_ok s0 -> ~ goes_wrong (fst (run_program fuel P s0)).
+  forall fuel s0, start_ok true P s0 -> ~ goes_wrong (fst (run_program fuel P s0)).
 
-(* what remains plausible for the whole language once wt also orders calls
-   after the declarations of the globals their bodies assign: no internal
-   error, and the only host crash is the exhaustion of the host stack by a
-   value that contains itself (print / == / array repetition on a cyclic
-   []any or {}any).  Not proved (Stage 2). *)
-Definition overflow_reason (w : str) : Prop :=
-  w = s_ "stack overflow in String" \/ w = s_ "stack overflow in Equals" \/
-  w = s_ "stack overflow in deepCopy" \/ w = s_ "stack overflow in same".
-
+(* what remains plausible for the whole language: no internal error, and the
+   only host crash is the exhaustion of the host stack by a value that
+   contains itself (SemSound.overflow_reason).  Proved below for s2_program. *)
 Definition soundness_modulo_overflow_full (wt' : program -> bool) : Prop :=
   forall P, wt' P = true ->
-  forall fuel s0, state_ok s0 ->
-    match fst (run_program fuel P s0) with
-    | OErr (EInternal _) => False
-    | OErr (EHostCrash w) => overflow_reason w
-    | _ => True
-    end.
+  forall fuel s0, start_ok false P s0 -> ~ goes_wrong_badly (fst (run_program fuel P s0)).
 
-(* ---------- proved: soundness on the Stage-1 fragment ---------- *)
-(* for EVERY program, EVERY fuel and EVERY well-typed start state *)
+(* ---------- proved: soundness on the strict fragment ---------- *)
 Theorem C02_soundness_partial : forall P,
   wt_program P = true -> s1_program P = true ->
-  forall fuel s0, state_ok s0 -> ~ goes_wrong (fst (run_program fuel P s0)).
+  forall fuel s0, start_ok true P s0 -> ~ goes_wrong (fst (run_program fuel P s0)).
 Proof. exact soundness_stage1. Qed.
 Print Assumptions C02_soundness_partial.
 
-(* the start states of Evaluator.Eval are well typed, whatever the stop point,
-   the input, and the two flags *)
-Theorem C02_init_state_ok : forall stop input failfast after_yield,
-  state_ok (init_state stop input failfast after_yield).
-Proof. exact init_state_ok. Qed.
+(* ---------- proved: soundness modulo stack overflow on the wide fragment ---------- *)
+Theorem C02_soundness_modulo_overflow_partial : forall P,
+  wt_program P = true -> s2_program P = true ->
+  forall fuel s0, start_ok false P s0 -> ~ goes_wrong_badly (fst (run_program fuel P s0)).
+Proof. exact soundness_stage2. Qed.
+Print Assumptions C02_soundness_modulo_overflow_partial.
+
+(* ---------- proved: event handlers ---------- *)
+(* the state a normally ended run leaves is again a well-typed start state ... *)
+Theorem C02_run_leaves_start_state : forall strict P,
+  wt_program P = true -> frag strict P = true ->
+  forall fuel s0, start_ok strict P s0 ->
+    (forall e, fst (run_program fuel P s0) <> OErr e) -> start_ok strict P (snd (run_program fuel P s0)).
+Proof. exact run_leaves_start_ok. Qed.
+Print Assumptions C02_run_leaves_start_state.
+
+(* ... and an event delivered in such a state to a handler of the program, with at least as many
+   payload values as the handler has parameters, is handled without going wrong and leaves such a
+   state again (Evaluator.HandleEvent; frag true = s1_program, frag false = s2_program) *)
+Theorem C02_handlers_partial : forall P,
+  wt_program P = true -> s1_program P = true ->
+  forall fuel name args s0 h, start_ok true P s0 ->
+    find_handler name (p_handlers P) = Some h -> (List.length (h_params h) <= List.length args)%nat ->
+    ~ goes_wrong (fst (handle_event fuel P name args s0)) /\
+    ((forall e, fst (handle_event fuel P name args s0) <> OErr e) ->
+     start_ok true P (snd (handle_event fuel P name args s0))).
+Proof. exact handlers_stage1. Qed.
+Print Assumptions C02_handlers_partial.
+
+Theorem C02_handlers_modulo_overflow_partial : forall P,
+  wt_program P = true -> s2_program P = true ->
+  forall fuel name args s0 h, start_ok false P s0 ->
+    find_handler name (p_handlers P) = Some h -> (List.length (h_params h) <= List.length args)%nat ->
+    ~ goes_wrong_badly (fst (handle_event fuel P name args s0)) /\
+    ((forall e, fst (handle_event fuel P name args s0) <> OErr e) ->
+     start_ok false P (snd (handle_event fuel P name args s0))).
+Proof. exact handlers_stage2. Qed.
+Print Assumptions C02_handlers_modulo_overflow_partial.
+
+(* the start states of Evaluator.Eval are well typed (for both fragments), whatever
+   the stop point, the input, and the two flags *)
+Theorem C02_init_state_ok : forall strict P stop input failfast after_yield,
+  wt_program P = true -> start_ok strict P (init_state stop input failfast after_yield).
+Proof. exact init_state_start_ok. Qed.
 Print Assumptions C02_init_state_ok.
 
-(* ---------- proved: preservation on the Stage-1 fragment ---------- *)
+(* ---------- proved: preservation (both fragments: strict = true / false) ---------- *)
 (* under a store typing S (cell ↦ dynamic type) that types the heap and the
    environment, an expression of static type t evaluates — if it returns — to a
    cell of dynamic type t under an extension of S that still types heap and
-   environment; it never ends in an internal error or a host crash *)
-Theorem C02_preservation_partial : forall n P e x G t S s,
-  ety (p_funcs P) G x = Some t -> s1_expr x = true -> genv_ok G -> inv S G e s ->
+   environment; an error is never internal and is a host crash only for
+   strict = false and a stack overflow on a cyclic value *)
+Theorem C02_preservation_partial : forall strict Gg,
+  (forall n t, sget n global_frame0 = Some t -> sget n Gg = Some t) ->   (* Gg: the program's global frame *)
+  forall n P e x G t S s,
+  ety (p_funcs P) G x = Some t -> s1_expr strict x = true -> genv_ok strict Gg P G -> inv strict Gg S G e s ->
   match eval_expr n P e x s with
-  | (Ok l, s') => exists S', ext S S' /\ inv S' G e s' /\ sfind S' l = Some t
-  | (Er er, _) => safe_err er
+  | (Ok l, s') => exists S', ext S S' /\ inv strict Gg S' G e s' /\ sfind S' l = Some t
+  | (Er er, _) => safe_err strict er
   end.
-Proof. exact preservation_stage1. Qed.
+Proof. exact preservation_generic. Qed.
 Print Assumptions C02_preservation_partial.
 
 (* a value stored in an any carries a concrete non-any type, and its content
    has exactly that dynamic type; any-cells occur only at type any *)
-Theorem C02_any_cells_concrete : forall S h l,
-  heap_ok S h -> sfind S l = Some TAny ->
+Theorem C02_any_cells_concrete : forall strict S h l,
+  heap_ok strict S h -> sfind S l = Some TAny ->
   exists u i v, hget h l = Some (HAny u i) /\ u <> TAny /\ sfind S i = Some u /\
                 hget h i = Some v /\ cell_ok S v u.
 Proof. exact any_cells_concrete. Qed.
 Print Assumptions C02_any_cells_concrete.
 
-Theorem C02_any_cells_only_at_any : forall S h l u i,
-  heap_ok S h -> hget h l = Some (HAny u i) -> forall t, sfind S l = Some t -> t = TAny.
+Theorem C02_any_cells_only_at_any : forall strict S h l u i,
+  heap_ok strict S h -> hget h l = Some (HAny u i) -> forall t, sfind S l = Some t -> t = TAny.
 Proof. exact any_cells_only_at_any. Qed.
 Print Assumptions C02_any_cells_only_at_any.
 
@@ -137,6 +184,88 @@ Example C02_ex_ok_run :
   match st_trace s with [EvPrint p] => pieces_str p = Some (s_ "[2 3] 2" ++ [10%N]) | _ => False end.
 Proof. vm_compute. split; reflexivity. Qed.
 
+(*  m := {a:1 b:2} / m.c = 3 / for k := range m / print k m[k] / end / del m "a" / print (has m "a") (len m)  *)
+Definition n3 : expr := ENum (float_of_bits 4613937818241073152).
+Definition ex_map : program :=
+  {| p_funcs := []; p_handlers := [];
+     p_stmts :=
+       [SDecl (s_ "m") (TMap TNum) (EMap (TMap TNum) [(s_ "a", n1); (s_ "b", n2)]);
+        SAssign (EDot TNum (v_ "m" (TMap TNum)) (s_ "c")) n3;
+        SFor (Some (s_ "k")) TStr (RExpr (v_ "m" (TMap TNum)))
+          [SCallStmt (s_ "print")
+             [EAny (v_ "k" TStr) TStr; EAny (EIndex TNum (v_ "m" (TMap TNum)) (v_ "k" TStr)) TNum]];
+        SCallStmt (s_ "del") [v_ "m" (TMap TNum); EStr (s_ "a")];
+        SCallStmt (s_ "print")
+          [EAny (EGroup (ECall (s_ "has") TBool [v_ "m" (TMap TNum); EStr (s_ "a")])) TBool;
+           EAny (EGroup (ECall (s_ "len") TNum [EAny (v_ "m" (TMap TNum)) (TMap TNum)])) TNum]] |}.
+
+Example C02_ex_map_hyps : wt_program ex_map = true /\ s1_program ex_map = true.
+Proof. vm_compute. split; reflexivity. Qed.
+
+Example C02_ex_map_run :
+  let '(o, s) := run_program 300 ex_map s0_ in
+  o = ODone /\
+  match st_trace s with
+  | EvPrint p :: _ => pieces_str p = Some (s_ "false 2" ++ [10%N])
+  | _ => False end.
+Proof. vm_compute. split; reflexivity. Qed.
+
+(*  func fact:num n:num / if n <= 1 / return 1 / end / return n * (fact n-1) / end
+    func sum:num nums:num... / t := 0 / for x := range nums / t = t + x / end / return t / end
+    print (fact 5) (sum 1 2 3)  *)
+Definition n5 : expr := ENum (float_of_bits 4617315517961601024).
+Definition ex_funcs : program :=
+  {| p_funcs :=
+       [{| fn_name := s_ "fact"; fn_params := [(s_ "n", TNum)]; fn_variadic := None; fn_ret := TNum;
+           fn_body :=
+             [SIf [(EBin BLtEq TBool (v_ "n" TNum) n1, [SReturn (Some n1)])] None;
+              SReturn (Some (EBin BAsterisk TNum (v_ "n" TNum)
+                               (EGroup (ECall (s_ "fact") TNum [EBin BMinus TNum (v_ "n" TNum) n1]))))] |};
+        {| fn_name := s_ "sum"; fn_params := []; fn_variadic := Some (s_ "nums", TNum); fn_ret := TNum;
+           fn_body :=
+             [SDecl (s_ "t") TNum n0;
+              SFor (Some (s_ "x")) TNum (RExpr (v_ "nums" (TArr TNum)))
+                [SAssign (v_ "t" TNum) (EBin BPlus TNum (v_ "t" TNum) (v_ "x" TNum))];
+              SReturn (Some (v_ "t" TNum))] |}];
+     p_handlers := [];
+     p_stmts :=
+       [SNop; SNop;
+        SCallStmt (s_ "print")
+          [EAny (EGroup (ECall (s_ "fact") TNum [n5])) TNum;
+           EAny (EGroup (ECall (s_ "sum") TNum [n1; n2; n3])) TNum]] |}.
+
+Example C02_ex_funcs_hyps : wt_program ex_funcs = true /\ s1_program ex_funcs = true.
+Proof. vm_compute. split; reflexivity. Qed.
+
+Example C02_ex_funcs_run :
+  let '(o, s) := run_program 300 ex_funcs s0_ in
+  o = ODone /\
+  match st_trace s with
+  | EvPrint p :: _ => pieces_str p = Some (s_ "120 6" ++ [10%N])
+  | _ => False end.
+Proof. vm_compute. split; reflexivity. Qed.
+
+(*  x := 0 / on key k:string / x = x + 1 / print k x / end  *)
+Definition ex_handler : program :=
+  {| p_funcs := [];
+     p_handlers :=
+       [{| h_name := s_ "key"; h_params := [(s_ "k", TStr)];
+           h_body := [SAssign (v_ "x" TNum) (EBin BPlus TNum (v_ "x" TNum) n1);
+                      SCallStmt (s_ "print") [EAny (v_ "k" TStr) TStr; EAny (v_ "x" TNum) TNum]] |}];
+     p_stmts := [SDecl (s_ "x") TNum n0; SNop] |}.
+
+Example C02_ex_handler_hyps : wt_program ex_handler = true /\ s1_program ex_handler = true.
+Proof. vm_compute. split; reflexivity. Qed.
+
+Example C02_ex_handler_run :
+  let s1 := snd (run_program 100 ex_handler s0_) in
+  let '(o, s2) := handle_event 100 ex_handler (s_ "key") [PvStr (s_ "a")] s1 in
+  o = ODone /\
+  match st_trace s2 with
+  | EvPrint p :: _ => pieces_str p = Some (s_ "a 1" ++ [10%N])
+  | _ => False end.
+Proof. vm_compute. split; reflexivity. Qed.
+
 (* ---------- the full statement is false ---------- *)
 (*  a:[]any / a = [1] / a[0] = a / print a  : accepted by the Go parser and by
     wt; String() recurses for ever on the value that contains itself (the Go
@@ -167,6 +296,10 @@ Theorem C02_soundness_full_refuted :
 Proof. exists ex_cyclic, 100%nat. vm_compute. split; [reflexivity|exact I]. Qed.
 Print Assumptions C02_soundness_full_refuted.
 
+(* it lies in the wide fragment: its crash is exactly the exception C02_soundness_modulo_overflow_partial makes *)
+Example C02_cyclic_in_s2 : s2_program ex_cyclic = true /\ s1_program ex_cyclic = false.
+Proof. vm_compute. split; reflexivity. Qed.
+
 Example C02_cyclic_outcome :
   fst (run_program 100 ex_cyclic s0_) = OErr (EHostCrash (s_ "stack overflow in String")).
 Proof. vm_compute. reflexivity. Qed.
@@ -182,7 +315,7 @@ Print Assumptions C02_early_call_is_an_evy_panic.
 Theorem C02_not_soundness_full : ~ soundness_full.
 Proof.
   intros H. destruct C02_soundness_full_refuted as (P & fuel & Hwt & Hbad).
-  exact (H P Hwt fuel s0_ (init_state_ok _ _ _ _) Hbad).
+  exact (H P Hwt fuel s0_ (init_state_start_ok true P _ _ _ _ Hwt) Hbad).
 Qed.
 Print Assumptions C02_not_soundness_full.
 
